@@ -197,9 +197,12 @@ def judge_c02(job, res):
         base = job.get("baseline")
         mine = observables(job, res)
         if base is not None:
-            for A, B in zip(mine, base):
+            # every episode of this job (all started from the same initial graph state when job["same_eps"]) vs the
+            # baseline's first episode: a later episode must not depend on what an earlier one left behind
+            for i, A in enumerate(mine):
+                B = base[i] if (i < len(base) and not job.get("same_eps")) else base[0]
                 for sig, det in _cmp_prefix(job["spec"], A, B):
-                    v.append(("differs-from-baseline:" + sig, det))
+                    v.append((f"differs-from-baseline:{'episode%d:' % i if i else ''}" + sig, det))
     return dict(violations=v, outcome=outcome_key(job, res) if res["finished"] else "UNFINISHED")
 
 
